@@ -211,7 +211,9 @@ var c09Amounts = []string{"0", "1", "11", "12", "13", "23", "24", "25", "59", "6
 	// just below and at the multiples of the 30-day month and the 365-day year in days, weeks and hours
 	"29", "30", "31", "52", "53", "104", "360", "364", "729", "730", "8640", "8759", "8760",
 	// negative amounts, whole and fractional (the fraction is dropped towards zero, then the sign applies)
-	"-1", "-1.5", "-0.5", "-13", "-2.999"}
+	"-1", "-1.5", "-0.5", "-13", "-2.999",
+	// fractions that have no exact binary representation (a fractional second is either dropped or applied exactly)
+	"1.001", "1.005", "2.003", "0.007", "2.999", "0.001", "1.009"}
 
 func c09Values(env *core.Env) [][2]string {
 	var out [][2]string
@@ -356,7 +358,7 @@ func replayC09Qty(env *core.Env, x []json.RawMessage) {
 }
 
 func c09Quantities(env *core.Env) {
-	qs := []string{"1 'mg'", "2.5 'mg'", "0 'mg'", "1 'kg'", "3 days", "1 day", "2 years", "1 'wk'", "10 'cm'", "1.5 'cm'", "100 '1'", "7 '1'"}
+	qs := []string{"1 'mg'", "2.5 'mg'", "0 'mg'", "1 'kg'", "3 days", "1 day", "2 years", "1 'wk'", "10 'cm'", "1.5 'cm'", "100 '1'", "7 '1'", "1 'ms'", "1 'm'", "2 's'", "3 'g'", "3 'gs'", "4 'mgs'", "2 'as'"}
 	n := 0
 	for _, a := range qs {
 		for _, b := range qs {
